@@ -452,6 +452,65 @@ func procC17(t *Target, tier string, r *Result) {
 	})
 	// one full source into every admissible object within one deviation of each base
 	src, _ := t.buildSOpt(&Chooser{}, BaseFull, sOpts{})
+	// a target whose attribute types lack a custom attribute: reported as a diagnostic and the hook of that
+	// attribute is not called, whether or not the object still holds a current value for it (an empty
+	// target, and the result of an earlier complete conversion with the type entry removed)
+	{
+		var targets []types.Object
+		var names []string
+		targets, names = append(targets, EmptyObject(schema)), append(names, "EmptyO")
+		done := EmptyObject(schema)
+		tfx.Log = nil
+		if res := t.callTo(src, &done); !res.Panicked && len(res.errs()) == 0 {
+			targets, names = append(targets, done), append(names, "SetO(own result)")
+		}
+		for _, a := range t.Spec.Attrs {
+			if a.Kind != spec.Custom {
+				continue
+			}
+			for ti, base := range targets {
+				o := CopyObj(base)
+				at := map[string]attr.Type{}
+				for k, v := range o.AttrTypes {
+					if k != a.Name {
+						at[k] = v
+					}
+				}
+				o.AttrTypes = at
+				w := OWitness{Kind: "corruption", Extra: "delete type of " + a.Name, Object: CanonOValues(o), Ops: []string{"SetS(full)", names[ti], "DeleteAttrType(" + a.Name + ")", "To"}}
+				var want []hookExpect
+				expectedToCalls(t.Spec, reflect.ValueOf(src).Elem(), CopyObj(o), st, "", &want)
+				n := 0
+				for _, e := range want {
+					if e.path != a.Name {
+						n++
+					}
+				}
+				before := CanonO(o.Attrs[a.Name])
+				_, had := o.Attrs[a.Name]
+				tfx.Log = nil
+				res := t.callTo(src, &o)
+				r.Transitions++
+				if res.Panicked {
+					r.violate("to/panic", "custom", "CopyTo panics when the type of a custom attribute is missing: "+res.Panic, w)
+					continue
+				}
+				if len(res.errs()) == 0 {
+					r.violate("to/missing-custom-attribute-not-reported", "custom", "no error diagnostic for the missing attribute type of "+a.Name, w)
+					continue
+				}
+				if got := callsOf("CopyTo"); len(got) != n {
+					r.violate("to/hook-called-for-missing-attribute", "custom", fmt.Sprintf("%d CopyTo hook calls, %d custom fields with a type reached", len(got), n), w)
+					continue
+				}
+				if cur, has := o.Attrs[a.Name]; has != had || (has && CanonO(cur) != before) {
+					r.violate("to/missing-attribute-overwritten", "custom", "attribute "+a.Name+" changed although its type is missing", w)
+					continue
+				}
+				r.outcome("to/missing-reported/" + names[ti])
+			}
+		}
+	}
 	t.forEachO(tier, r, oOpts{Admissible: true, K: 1}, func(obj types.Object, w OWitness) {
 		w.Ops = []string{"SetS(full)", "SetO", "To"}
 		doTo(src, CopyObj(obj), w, 9)
